@@ -35,6 +35,65 @@ func init() {
 	})
 }
 
+func hashFields(seq, ty, c, d string) (st string, val string) {
+	defer func() {
+		if p := recover(); p != nil {
+			st, val = "panic", ""
+		}
+	}()
+	h, err := seqhash.Hash(seq, ty, c == "true", d == "true")
+	if err != nil {
+		return "err", ""
+	}
+	return "ok", h
+}
+
+func init() {
+	register("hash2", func(a []string) ([]string, error) {
+		s1, v1 := hashFields(a[0], a[1], a[2], a[3])
+		s2, v2 := hashFields(a[4], a[5], a[6], a[7])
+		return []string{s1, v1, s2, v2}, nil
+	})
+	// every word of length n over alpha, odometer order (last letter fastest)
+	register("hashall", func(a []string) ([]string, error) {
+		alpha := a[0]
+		n := atoi(a[1])
+		idx := make([]int, n)
+		var out []string
+		buf := make([]byte, n)
+		for {
+			for i := range idx {
+				buf[i] = alpha[idx[i]]
+			}
+			h, err := seqhash.Hash(string(buf), a[2], a[3] == "true", a[4] == "true")
+			if err != nil {
+				return nil, err
+			}
+			out = append(out, h)
+			i := n - 1
+			for ; i >= 0; i-- {
+				idx[i]++
+				if idx[i] < len(alpha) {
+					break
+				}
+				idx[i] = 0
+			}
+			if i < 0 {
+				break
+			}
+		}
+		return []string{strings.Join(out, ",")}, nil
+	})
+}
+
+func atoi(s string) int {
+	n := 0
+	for _, c := range s {
+		n = n*10 + int(c-'0')
+	}
+	return n
+}
+
 func bstr(b bool) string {
 	if b {
 		return "true"
